@@ -374,7 +374,8 @@ func checkC15(job *Job, res *Result) {
 			res.Violate("C15/hang:password-http", x.Err, nil)
 		}
 		// ---- protected mode
-		for _, from := range []string{"127.0.0.1:50001", "192.0.2.7:50001", "[::1]:50001"} {
+		for _, from := range []string{"127.0.0.1:50001", "192.0.2.7:50001", "[::1]:50001",
+			"[fe80::1%eth0]:50001", "[2001:db8::1]:50001", "10.0.0.5:50001", "[::ffff:192.0.2.7]:50001", "[fe80::1%lo]:50001", "169.254.1.1:50001", "1.127.0.0.1:50001"[2:], "128.0.0.1:50001"} {
 			from := from
 			x := runExec(job, freezeAllBut(), func(x *Exec) {
 				in := x.Start("L", x.dir+"/L", 9001, func(o *Options) { o.ProtectedMode = "yes"; o.Host = "" })
@@ -389,7 +390,7 @@ func checkC15(job *Job, res *Result) {
 				vsched.Quiesce()
 				got := string(c.c.Drain())
 				after, _ := internalDump(in.S)
-				loop := !strings.HasPrefix(from, "192.")
+				loop := strings.HasPrefix(from, "127.0.0.1:") || strings.HasPrefix(from, "[::1]:")
 				it := c15Inst{Cmd: "SET", Wrapper: "from " + from, Args: w("SET k1 fromoutside POINT 1 1")}
 				if loop {
 					if !strings.Contains(got, "+OK") {
